@@ -44,4 +44,9 @@ CHECKS = {
                      'of all four edges (either orientation); IBVP1D reproduces the initial profile for all x and the value or x-derivative '
                      'at both ends for all t in the four DD/DN/ND/NN modes; thin-plate-spline model for any number of control points: the '
                      'enforced function equals the prescribed value at every control point whenever the coefficients solve the fitted rows'),
+    'C03': dict(engine=ENGINE_A, technique=TECH_A, note=NOTE_A + '; autograd.grad returning None exactly for syntactically independent operands is modelled (values agree either way) and validated on random programs', ref='DESIGN.md section 7 C03',
+                text='loop model of unsafe_diff proved equal to the k-fold symbolic derivative for every order and operand, and to Coquelicot\'s '
+                     'Derive_n of the row function for smooth operands with coherent jets; zero for independent operands and above the '
+                     'polynomial degree; mixed partials commute; ones-trick (per-sample) for every batch size; the shape guard translated '
+                     'from safe_diff accepts exactly equal (n,1) pairs; model tied in the kernel to terms regenerated from neurodiffeq.py'),
 }
